@@ -168,7 +168,7 @@ Definition m_any (flags : N) (s : mstate) : bool * mstate :=
   if negb (flags =? 0) && interactive s then (true, s)
   else let '(ok, s1) := available (sr s) 1 max_rune_units s in
        if ok then match subject_from (sr s1) s1 with
-                  | _ :: rest => (false, upd_sr (sr s1 + 1 + N.of_nat (skip_trail rest)) s1)
+                  | _ :: rest => (false, upd_sr (sr s1 + 1 + N.of_nat (skip_trail_w rest)) s1)
                   | [] => (true, s1)
                   end
        else (true, s1).
@@ -202,7 +202,7 @@ Definition m_octet (b : N) (s : mstate) : bool * mstate :=
 Definition m_rune (ucd : ucd_table) (test : N -> option bool) (s : mstate) : result + (bool * mstate) :=
   let '(ok, s1) := available (sr s) 1 max_rune_units s in
   if ok then
-    let '(n, rune) := decode_rune (subject_from (sr s1) s1) in
+    let '(n, rune) := decode_rune_w (subject_from (sr s1) s1) in
     match n with
     | O => inr (true, s1)
     | _ => match test rune with
